@@ -87,9 +87,10 @@ def configs(tier, exe):
     # (3) orderly close with queued complete messages; first observer receive / send / finish
     for tp in T:
         d = (2 if tp not in TLS else 2) if q else (3 if tp not in TLS else 2)
-        for sa, sb in (("swR", "ssfc"), ("swsssR", "ssfc"), ("swfsR", "ssfc"), ("wR", "ssfc"), ("sfwR", "rssfc"),
-                       ("sfwsssR", "rssfc")):
-            if q and tp in TLS and sa in ("swfsR", "sfwsssR"):
+        # (the leading f completes the TLS handshake: an endpoint that waits for its peer's end does not service its socket)
+        for sa, sb in (("fswR", "fssfc"), ("fswsssR", "fssfc"), ("fswfsR", "fssfc"), ("fwR", "fssfc"), ("fsfwR", "frssfc"),
+                       ("fsfwsssR", "frssfc")):
+            if q and tp in TLS and sa in ("fswfsR", "fsfwsssR"):
                 continue
             c.append(("tp=%s,mode=pair,sa=%s,sb=%s,%s" % (tp, sa, sb, MENU), d))
     for tp in ("ux", "uxf"):
